@@ -1,14 +1,30 @@
-(* C14 composite: authSASL-level cases (tag 0, Model/Sasl.v) and connection histories
-   (tag 1, Model/Session.v: step_auth chooses the mechanism from the features of the
-   stream it authenticates on). *)
+(* C14 composite: authSASL-level cases (tags 0 and 2 of RunC14, Model/Sasl.v) and connection
+   histories (here tag 1 / tag 2, Model/Session.v: step_auth chooses the mechanism from the
+   features of the stream it authenticates on).
+   (2 session-input user secret): the session result, plus, per connection, the character
+   data of every <auth/> the client writes: the PLAIN payload Model/Sasl.v computes from the
+   local part of the configured JID and the secret. *)
 From Coq Require Import List ZArith NArith Bool.
-From XV Require Import Lib.Sx Corr.RunC14 Corr.RunSession.
+From XV Require Import Lib.Sx Model.Session Model.Sasl Corr.RunC14 Corr.RunSession.
 Import ListNotations.
 Open Scope Z_scope.
+
+Definition auth_payloads (user secret : str) (w : list out) : list sx :=
+  flat_map (fun x => match o_req x with RAuth _ => [SS (plain_payload user secret)] | _ => [] end) w.
+
+Definition run_sess_payloads (y : sx) (user secret : str) : sx :=
+  match RunSession.dec_input y with
+  | Some (cfg, sme, cs, _) =>
+      SL [run_session y;
+          SL (map (fun x : list out * Session.result * persist => SL (auth_payloads user secret (fst (fst x))))
+                  (run_conns cfg (fresh sme) cs))]
+  | None => decode_error
+  end.
 
 Definition run_C14b (x : sx) : sx :=
   match x with
   | SL [SZ 0; y] => run_C14 y
   | SL [SZ 1; y] => run_session y
+  | SL [SZ 2; y; SS user; SS secret] => run_sess_payloads y user secret
   | _ => decode_error
   end.
